@@ -30,7 +30,12 @@ def plan(tier, seed):
                 i += 1
     n = 260 if tier == "quick" else 4000
     for k in range(n):
-        specs.append({"klass": "random", "i": k, "backend": ("numpy", "c", "numpy", "jax")[k % 4], "delta": DELTAS[(k // 4) % 3], "fill": True, "general": k % 3 == 0})
+        specs.append({"klass": "random", "i": k, "backend": ("numpy", "c", "numpy", "jax")[k % 4], "delta": DELTAS[(k // 4) % 3], "fill": True, "general": k % 3 == 0,
+                      "alias": "forward_generalized_rush_larsen" if k % 5 == 4 else "generalized_rush_larsen", "zero_defaults": k % 7 == 3})
+    for j, sh in enumerate(["linear_k", "affine", "gate", "denominator"]):
+        for be in ("numpy", "c", "jax"):
+            specs.append({"klass": "zero_default_parameter:" + sh, "i": 1000 + 3 * j + ("numpy", "c", "jax").index(be), "shapes": [sh, sh], "backend": be, "delta": 1e-8, "zero_defaults": True})
+            specs.append({"klass": "deprecated_alias:" + sh, "i": 1100 + 3 * j + ("numpy", "c", "jax").index(be), "shapes": [sh, sh], "backend": be, "delta": 0.5, "alias": "forward_generalized_rush_larsen"})
     for s in specs:
         s["prop"] = ID
         s.setdefault("soft_timeout", 150)
@@ -67,7 +72,11 @@ def run_case(spec, ctx):
         text, shapes = models.gen_model(rng, Profile(mod=False, funcs=[f for f in Profile().funcs if f != "floor"]), depth=2, n_states=rng.choice([1, 2, 3])).render(rng), ["general"]
     else:
         text, shapes = grlmodels.gen_grl_model(rng, shapes=spec.get("shapes"), n_states=2 if spec.get("shapes") else None)
-    out["hash"] = models.structural_hash(text) + f":{be}:{delta}"
+    if spec.get("zero_defaults"):
+        # the model ships with parameters that are zero by default (and switch the linearisation off);
+        # the generated step is then called with other runtime values
+        text = text.replace("parameters(k=-0.5, tau=2.0, b=0.75)", "parameters(k=0.0, tau=2.0, b=0.0)")
+    out["hash"] = models.structural_hash(text) + f":{be}:{delta}:{spec.get('alias', '')}:{bool(spec.get('zero_defaults'))}"
     out["shapes"] = shapes
     ref = RefModel.from_text(text)
     if ref.ill_formed():
@@ -78,7 +87,7 @@ def run_case(spec, ctx):
         out.update(status="skipped", reason="rejected_by_loader: " + lo.describe())
         return out
     ode = lo.value
-    fn = "generalized_rush_larsen"
+    fn = spec.get("alias", "generalized_rush_larsen")
     oc = B.generate(be, ode, schemes=[fn], delta=delta)
     if not oc.ok:
         if not B.generate(be, ode, schemes=None).ok:
@@ -89,7 +98,7 @@ def run_case(spec, ctx):
         return finish(out, text, spec, ref, ode)
     code = oc.value
     out["code"] = code
-    cn["census"] = guard_census(code)
+    cn["census"] = guard_census(code, fn)
     try:
         m = B.open_module(be, code, ref)
     except Exception as exc:
